@@ -38,6 +38,12 @@ CHECKS = {
  "C20": ("model_checking", "E1 + hook H3", "exhaustive enumeration of input subsets x input permutations x drain orders of the parser's pending map (the hash order turned into an enumerated choice by a hook), each executed on the real parse_list and compared with a reference resolvability predicate",
          "For every subset (up to the size bound) of a family of mutually referencing schemas, every permutation of the input list and every order in which the parser can drain its pending map, parsing succeeds exactly when every reference resolves inside the set and no full name is defined twice, returns the schemas in input order, and yields identical JSON for each input across all orderings; long reference chains are explored with deviation-bounded drain orders.",
          "5 C20", "the pending map's iteration order is the only order-dependent nondeterminism; hook H3 owns it"),
+ "C04": ("model_checking", "E1 + refocf + codec oracle", "bounded-exhaustive enumeration of value sequences x block partitions x codecs x metadata layouts, executed in both directions between the real Writer/Reader and an independent container implementation with reference codecs",
+         "Every file the library writes for the enumerated histories is parsed by an independent container reader (layout, metadata, schema, codec, markers; payloads through python zlib/bz2/lzma, zstd CLI, own snappy decoder; items through refbin) to the same values, and every spec-conforming file shape the independent writer produces (all block partitions, three metadata-map layouts, extra metadata) is read by the library to the same values, schema and user metadata.",
+         "5 C04", "refocf/refbin/refsnappy independent; python codecs trusted; zstandard only against the zstd CLI"),
+ "C15": ("model_checking", "E1 + codec oracle", "exhaustive enumeration of small payloads, of every expressible compression setting and of window/block-boundary payload sizes, each round-tripped by the real codec and cross-checked with reference codecs",
+         "All byte strings up to length 6 over a 4-letter alphabet, every setting the settings types can express (all 256 u8 levels, 6 deflate levels) and payload sizes around every codec window boundary with compressible and incompressible content round-trip; deflate/bzip2/xz/zstd streams are accepted by reference decompressors and vice versa; snappy blocks are independently decodable and carry the big-endian CRC-32, with every single-bit checksum corruption rejected.",
+         "5 C15", "python zlib/bz2/lzma trusted; zstandard interop via CLI; payload alphabet/sizes as listed"),
 }
 def main():
     checks = []
